@@ -670,11 +670,17 @@ class Run:
         if sm is None:
             return
         how = step.get("how", "deepcopy")
+        # (property guards are read when callbacks are registered, also on the clone: the copy is taken
+        # under a valuation in which no guard raises)
+        keep_val = rec.val
+        rec.val = {k: (True if v == "raise" else v) for k, v in dict(rec.val).items()}
         try:
             clone = copy.deepcopy(sm) if how == "deepcopy" else pickle.loads(pickle.dumps(sm))
         except Exception as err:  # noqa: BLE001
             rec.emit("note", what="clone-failed", how=how, exc=f"{type(err).__name__}: {err}"[:200])
             return
+        finally:
+            rec.val = keep_val
         objs = {"model": clone.model}
         for lst in list(getattr(clone, "_listeners", {})):
             nm = type(lst).__name__.split("_")[0].lower()
